@@ -103,6 +103,30 @@ Proof.
 Qed.
 Print Assumptions C04_assert_new_sound.
 
+(* Owned containers are not shared with the caller.  If the caller's heap is
+   closed (its cells only refer to its cells), then after an accepted
+   statement every field that the checker knows to hold a container created
+   during the call (in particular: every ownership field passed through the
+   translator's assertions / exit assertions) holds a cell that no object of
+   the caller refers to, in any field.  (Exclusivity among the objects
+   created during one and the same call is NOT covered: that needs a
+   uniqueness analysis; it is confirmed by the operation-sequence
+   correspondence only.) *)
+Theorem C04_owned_container_not_shared_with_caller :
+  forall n0 O s a a' fuel st st' x F f,
+    astmt s a = Some a' -> Inv n0 a st -> closed (hp st) n0 ->
+    exec O fuel s st = (st', Normal) ->
+    alookup a' x = Some F -> In f F ->
+    forall o g, o < n0 -> hp st' o g <> hp st' (env st' x) f.
+Proof.
+  intros n0 O s a a' fuel st st' x F f Ha HI Hcl He Hx Hf o g Ho.
+  destruct (exec_sound n0 O s a a' fuel st st' Normal Ha HI He) as [[P _] I1].
+  destruct (I1 eq_refl) as [_ HI'].
+  destruct (HI' x F Hx) as [_ B]. destruct (B f Hf) as [Blo _].
+  rewrite (P o g Ho). pose proof (Hcl o g Ho). lia.
+Qed.
+Print Assumptions C04_owned_container_not_shared_with_caller.
+
 (* ------------------------------------------------------------ refutations *)
 (* The shape `rhs = H if c else L(H); rhs += D` (MESolver.__init__ on the
    unchanged tree): the checker rejects it, and there is an execution of the
@@ -150,6 +174,14 @@ Proof.
   destruct H as [H|[]]. inversion H. subst. split; [vm_compute; lia|].
   intros f Hf. destruct Hf.
 Qed.
+
+(* the hypotheses of C04_owned_container_not_shared_with_caller are
+   satisfiable with a non-empty field set: the constructor sample keeps
+   `self.rhs` known after its loop *)
+Example C04_nonvacuous_owned_field :
+  exists a' F, astmt (f_body prog_ctor_loop) (init_aenv (f_owned prog_ctor_loop)) = Some a' /\
+               alookup a' "self" = Some F /\ In "rhs" F.
+Proof. eexists. eexists. split; [vm_compute; reflexivity|]. split; [reflexivity|]. simpl. auto. Qed.
 
 (* an accepted program really runs to completion and allocates (the
    conclusion is not about an empty set of executions) *)
